@@ -155,17 +155,6 @@ Definition value_in (q : req) (den : den_state) (n : str) : option val :=
   | None => dict_get (d_out den) n
   end.
 
-(* no MapSpec of a later function computes an input of an earlier one (the functions are listed in a
-   topological order: a Pipeline is acyclic) *)
-Fixpoint topo_specs (specs : list mapspec) : bool :=
-  match specs with
-  | [] => true
-  | m :: t =>
-      forallb (fun a => negb (existsb (fun m' => negb (is_nil (ins m')) && mem_str (aname a) (map aname (outs m')))
-                                      (m :: t))) (ins m)
-      && topo_specs t
-  end.
-
 (* (axis name, size) for every named position of every array occurrence in the MapSpecs *)
 Definition axis_sizes (q : req) (den : den_state) : list (str * nat) :=
   flat_map (fun a => match value_in q den (aname a) with
